@@ -62,6 +62,7 @@ def opTags (w : World) : Op → List String
   | .living => ["enable_commands"]
   | .burn => ["eval_cost-used"]
   | .rp => ["replace_program"]
+  | .mv _ => ["move_object"]
 
 def runOpsT (w : World) (self : Nat) : List Op → World × List Ev × Status × List String
   | [] => (w, [], .ok, [])
@@ -106,7 +107,7 @@ def roundT (sc : Scripts) : Nat → World → World × List Ev × List String
                       if w.ec then "chb.call.eval_cost-was-full" else "chb.call.eval_cost-reset-after-use"]
           match runOpsT w1 hb.ob (sc hb.ob (w.nb hb.ob)) with
           | (w2, evs, .err, tg) =>
-            (errorHandler w2, .beat hb.ob :: ctxEv w1 hb.ob :: evs ++ [.tickAbort],
+            ({ errorEntry w2 with cg := none }, .beat hb.ob :: ctxEv w1 hb.ob :: evs ++ [.tickAbort],
              "chb.entry.due:call" :: ctg ++ tg ++ errTags w2 ++ ["chb.round-abandoned"])
           | (w2, evs, _, tg) =>
             let w2 := callAfter w2 hb.ob
@@ -138,17 +139,27 @@ def stepCmdT (sc : Scripts) (w : World) : Cmd → World × List Ev × List Strin
   | .tick =>
     if w.crashed then (w, [], [])
     else
-      match applyRp w with
-      | (w1, e1) =>
-        match tickT sc w1 with
-        | (w2, e2, tg) => (w2, e1 ++ e2, (e1.map (fun _ => "replace_programs:program-swapped")) ++ tg)
+      match tickCore sc { w with cg := none, tflags := 0 } with
+      | (w0, e0) =>
+        match applyRp { w0 with tflags := w.tflags } with
+        | (w1, e1) =>
+          match tickT sc w1 with
+          | (w2, e2, tg) =>
+            let tg := "backend.start-up-call" :: (e1.map (fun _ => "replace_programs:program-swapped")) ++ tg
+            if e2.contains .tickAbort then
+              match morePasses sc maxPass w2 with
+              | (w3, e3) => (w3, e0 ++ e1 ++ e2 ++ e3 ++ [.cgAfter w3.cg],
+                             tg ++ "backend.further-passes-after-error" ::
+                               (if e3.contains .tickBegin then ["backend.tick-served-right-after-an-abandoned-round"] else []) ++
+                               (if e3.contains .passLimit then ["backend.pass-limit"] else []))
+            else (w2, e0 ++ e1 ++ e2 ++ [.cgAfter w2.cg], tg)
   | .op self op =>
     if w.crashed then (w, [], [])
     else if !w.known.contains self then (w, [.topNoObj self], [])
     else if w.dead.contains self then (w, [.topDead self], [])
     else
       match runOpsT w self [op] with
-      | (w', evs, .err, tg) => (errorHandler w', evs ++ [.topErr self], tg ++ errTags w')
+      | (w', evs, .err, tg) => (errorEntry w', evs ++ [.topErr self], tg ++ errTags w')
       | (w', evs, _, tg) => (w', evs, tg)
   | .tflags n => if w.crashed then (w, [], []) else ({ w with tflags := (n : Int) }, [.tflags (n : Int)], ["timer_flags-set"])
 
